@@ -27,3 +27,39 @@ Proof.
   etransitivity; [apply (bindM_ok _ _ s s (Some (layers ++ [n], tt))); exact R1|]. cbv beta iota.
   exact K.
 Qed.
+
+Lemma exists_absent_in_dir s d nm : simple_dir s d -> valid_name nm = true ->
+  pget (d ++ [nm]) s = None -> exists_ (d ++ [nm]) s = false.
+Proof.
+  intros SD Hv Hn. unfold exists_, stat, stat_gen.
+  assert (NL : not_link (pget (d ++ [nm]) s)) by (rewrite Hn; intros t; discriminate).
+  rewrite (resolve_in_dir s d nm true SD Hv NL), Hn. reflexivity.
+Qed.
+
+(* a layer that does not exist yet: the request creates exactly a fresh directory and a fresh document *)
+Theorem keep_model_fresh layers n s res post :
+  valid_name n = true -> simple_dir s layers ->
+  pget (layers ++ [n]) s = None -> pget (layers ++ [toml_name n]) s = None ->
+  keep_model (mkCase s layers n OpKeep res post) =
+    (pset (layers ++ [toml_name n]) (File mode_file_default (Doc (TTbl []))) (pset (layers ++ [n]) (Dir mode_dir_default) s), Ok tt).
+Proof.
+  intros Vn SD Hd Ht.
+  assert (Vt : valid_name (n ++ [46; 116; 111; 109; 108]) = true) by (apply valid_name_app; [exact Vn|cbn; lia|reflexivity]).
+  set (parse := fun _ : bytes => Some tt).
+  pose proof (exists_absent_in_dir s layers n SD Vn Hd) as X1.
+  pose proof (exists_absent_in_dir s layers _ SD Vt Ht) as X2.
+  assert (R1 : gen_read_layer parse layers n s = (s, Ok None)).
+  { unfold gen_read_layer. cbv beta zeta.
+    match goal with |- context [exists_ ?p s] => replace (exists_ p s) with false by (symmetry; exact X1) end.
+    match goal with |- context [exists_ ?p s] => replace (exists_ p s) with false by (symmetry; exact X2) end.
+    reflexivity. }
+  destruct (write_then_read_layer (fun _ : unit => TTbl []) parse layers n Vn Vt s tt SD Hd Ht) as (s2 & W2 & R2).
+  pose proof (write_layer_fresh (fun _ : unit => TTbl []) layers n tt Vn Vt s SD Hd Ht) as W.
+  assert (Es2 : s2 = pset (layers ++ [toml_name n]) (File mode_file_default (Doc (TTbl []))) (pset (layers ++ [n]) (Dir mode_dir_default) s)).
+  { rewrite W2 in W. injection W as W. exact W. }
+  unfold keep_model. cbn [c_pre c_layers c_name]. fold parse.
+  etransitivity; [apply (bindM_ok _ _ s s None); exact R1|]. cbv beta iota.
+  etransitivity; [apply (bindM_ok _ _ s s2 tt); exact W2|]. cbv beta.
+  etransitivity; [apply (bindM_ok _ _ s2 s2 (Some (layers ++ [n], tt))); exact R2|]. cbv beta.
+  unfold ret. rewrite Es2. reflexivity.
+Qed.
